@@ -342,6 +342,15 @@ fn extra(cfg: &RunCfg, w: &mut Worker) {
     if !cfg!(feature = "smawk") {
         return;
     }
+    corpus_subrun(cfg, w, |i, paras, width, v| {
+        if paras[i].len() > 500 {
+            return None;
+        }
+        grid_variant(v, i, width, false).map(|mut o| {
+            o.algo = Algo::Optimal(if v % 2 == 0 { Pen::DEFAULT } else { Pen { nline: 10, overflow: 300, frac: 3, short: 40, hyphen: 5 } });
+            Case::new("text").text(paras[i].clone()).opt(o)
+        })
+    });
     // exhaustive small fragments satisfying the precondition
     let max = if cfg.thorough { 5 } else { 4 };
     let mut choices = Vec::new();
